@@ -4,6 +4,7 @@ import (
 	"crypto/rand"
 	"fmt"
 	"strings"
+	"sync"
 	"testing"
 	"testing/iotest"
 )
@@ -91,8 +92,37 @@ func TestC05(t *testing.T) {
 			c05CasePT(m, v, rng, et, ff, 11)
 		}
 	}
+	// des3 protocol keys that hold a weak or semi-weak DES key in one of their three positions (RFC 3961 corrects
+	// such keys only in random-to-key: E, D and DR use the key they are given), keys without odd parity, and
+	// keys of the other etypes made of one repeated octet
+	{
+		weak := []string{"0101010101010101", "fefefefefefefefe", "1f1f1f1f0e0e0e0e", "e0e0e0e0f1f1f1f1",
+			"011f011f010e010e", "1f011f010e010e01", "01e001e001f101f1", "e001e001f101f101", "01fe01fe01fe01fe", "fe01fe01fe01fe01",
+			"1fe01fe00ef10ef1", "e01fe01ff10ef10e", "1ffe1ffe0efe0efe", "fe1ffe1ffe0efe0e", "e0fee0fef1fef1fe", "fee0fee0fef1fef1"}
+		for i, w := range weak {
+			for pos := 0; pos < 3; pos++ {
+				key := randKey(rng, 16)
+				copy(key[8*pos:], UnX("x"+w))
+				c05CaseKey(m, v, rng, 16, key, rng.Bytes(1+(i+pos)%20), uint32(1+(i*3+pos)%24))
+			}
+		}
+		for i := 0; i < 12; i++ {
+			key := rng.Bytes(24) // any parity
+			c05CaseKey(m, v, rng, 16, key, rng.Bytes(1+i), 3)
+		}
+		for _, et := range []int32{17, 18, 19, 20, 23} {
+			for _, b := range []byte{0, 1, 0xff} {
+				key := make([]byte, specKeyLen(et))
+				for i := range key {
+					key[i] = b
+				}
+				c05CaseKey(m, v, rng, et, key, rng.Bytes(9), 3)
+			}
+		}
+	}
 	c05FreshMixed(v, rng)
 	c05FreshShortReads(v, rng)
+	c05FreshConcurrent(v, rng)
 	v.ModelAsks = m.N
 	v.Write(t)
 }
@@ -102,7 +132,10 @@ func c05Case(m *Model, v *Verdict, rng *RNG, et int32, l int, usage uint32) {
 }
 
 func c05CasePT(m *Model, v *Verdict, rng *RNG, et int32, pt []byte, usage uint32) {
-	key := randKey(rng, et)
+	c05CaseKey(m, v, rng, et, randKey(rng, et), pt, usage)
+}
+
+func c05CaseKey(m *Model, v *Verdict, rng *RNG, et int32, key []byte, pt []byte, usage uint32) {
 	l := len(pt)
 	want := "ok " + X(des3Padded(et, pt))
 	// direction 1: Go encrypts, the RFC spec decrypts
@@ -177,6 +210,60 @@ func c05FreshShortReads(v *Verdict, rng *RNG) {
 			seen[string(ct)] = true
 		}
 		v.Case(fmt.Sprintf("fresh-short-reads/%d", et), fmt.Sprintf("fresh with one-octet reads et=%d (%d msgs)", et, n))
+	}
+}
+
+// c05FreshConcurrent: callers on several goroutines encrypt the same plaintext under the same key at the same
+// time (a service answers its clients in parallel): every ciphertext is still different from every other, and
+// none of the calls fails.
+func c05FreshConcurrent(v *Verdict, rng *RNG) {
+	workers, per := 8, 1500
+	if Thorough() {
+		per = 12000
+	}
+	for _, et := range allEtypes {
+		key := randKey(rng, et)
+		pt := rng.Bytes(16)
+		out := make([][]string, workers)
+		fails := make([]string, workers)
+		var wg sync.WaitGroup
+		start := make(chan struct{})
+		for w := 0; w < workers; w++ {
+			wg.Add(1)
+			go func(w int) {
+				defer wg.Done()
+				<-start
+				for i := 0; i < per; i++ {
+					ct, err, pan := goEncrypt(et, key, pt, 3)
+					if err != nil || pan != "" {
+						fails[w] = fmt.Sprint(err, " ", pan)
+						return
+					}
+					out[w] = append(out[w], string(ct))
+				}
+			}(w)
+		}
+		close(start)
+		wg.Wait()
+		seen := map[string]int{}
+		bad := false
+		for w := 0; w < workers && !bad; w++ {
+			if fails[w] != "" {
+				v.Violate("failing-input", fmt.Sprintf("c05:concurrent-encrypt-fails:et=%d", et), "EncryptMessage fails when several goroutines encrypt at the same time", map[string]string{"et": itoa(et), "workers": fmt.Sprint(workers), "error": cut(fails[w], 300)})
+				bad = true
+				break
+			}
+			for _, ct := range out[w] {
+				if w0, dup := seen[ct]; dup {
+					v.Violate("failing-input", fmt.Sprintf("c05:confounder-repeats-concurrent:et=%d", et), "two encryptions of the same plaintext under the same key, made at the same time on different goroutines, produced the same ciphertext (the confounder was shared)",
+						map[string]string{"et": itoa(et), "workers": fmt.Sprint(workers), "goroutines": fmt.Sprint(w0, ",", w), "key": X(key), "pt": X(pt), "ct": X([]byte(ct))})
+					bad = true
+					break
+				}
+				seen[ct] = w
+			}
+		}
+		v.Case(fmt.Sprintf("fresh-concurrent/%d", et), fmt.Sprintf("fresh with %d goroutines encrypting at once et=%d (%d msgs)", workers, et, workers*per))
 	}
 }
 
